@@ -88,16 +88,20 @@ type contractDB struct {
 	Markers   []string // assume/axiom/trusted style markers found
 	Ghosts    map[string]string // ghost state variable -> type
 	Invariants map[string][]*clause // layer -> global invariants of the property's sweep (assumed at entry of every function in scope, asserted at its exits and before every call into the scope)
+	AtomicInit map[string]bool // functions that run before any goroutine is started (may access atomic fields plainly)
+	Owned      map[string]bool // types whose values belong to one goroutine at a time
+	Moves      map[string]bool // functions that hand their receiver to a new goroutine
+	Discipline map[string]bool // properties that include the access-discipline obligations (atomic fields, moved values)
 	GlobalFrame map[string]bool // properties that include the module-wide frame obligations for package-level variables
 	RevealPost map[string]bool // layers in which the spec terms of callee postconditions are unfolded one level
 	Scopes    map[string][]string // property -> root functions: every module function reachable from them is in the property's sweep
 	Files     []string
 }
 
-var clauseKw = regexp.MustCompile(`^(globalframe|defines|heapwf|reveal|scope|invariant|ghost|spec|macro|lemma|contract|external|requires|ensures|emits|callsite|decreases|loop|safety|props|inline|pure|modifies|noreturn|fuel|unreachable)\b`)
+var clauseKw = regexp.MustCompile(`^(owned|discipline|atomicinit|moves|globalframe|defines|heapwf|reveal|scope|invariant|ghost|spec|macro|lemma|contract|external|requires|ensures|emits|callsite|decreases|loop|safety|props|inline|pure|modifies|noreturn|fuel|unreachable)\b`)
 
 func newContractDB() *contractDB {
-	return &contractDB{Specs: map[string]*specDef{}, Contracts: map[string]*contract{}, Ghosts: map[string]string{}, Scopes: map[string][]string{}, Invariants: map[string][]*clause{}, RevealPost: map[string]bool{}, GlobalFrame: map[string]bool{}}
+	return &contractDB{Specs: map[string]*specDef{}, Contracts: map[string]*contract{}, Ghosts: map[string]string{}, Scopes: map[string][]string{}, Invariants: map[string][]*clause{}, RevealPost: map[string]bool{}, GlobalFrame: map[string]bool{}, AtomicInit: map[string]bool{}, Moves: map[string]bool{}, Owned: map[string]bool{}, Discipline: map[string]bool{}}
 }
 
 // loadContractFile parses one file. pkgPath is the Go package the file belongs to ("" for external files,
@@ -171,6 +175,35 @@ func (db *contractDB) loadContractFile(path, pkgPath string) error {
 				return fail("%v", err)
 			}
 			db.Invariants[layer] = append(db.Invariants[layer], &clause{Kind: "invariant", Layer: layer, Label: layer + ".invariant", Src: rest, Expr: e, File: path, Line: rc.line, Target: pkgPath})
+			cur = nil
+		case "owned":
+			for _, r := range strings.Fields(rest) {
+				if pkgPath != "" && !strings.Contains(r, "/") {
+					r = pkgPath + "." + r
+				}
+				db.Owned[r] = true
+			}
+			cur = nil
+		case "discipline":
+			for _, l := range strings.Fields(rest) {
+				db.Discipline[l] = true
+			}
+			cur = nil
+		case "atomicinit", "moves":
+			for _, r := range strings.Fields(rest) {
+				if pkgPath != "" && !strings.Contains(r, "/") {
+					if strings.HasPrefix(r, "(*") {
+						r = "(*" + pkgPath + "." + r[2:]
+					} else {
+						r = pkgPath + "." + r
+					}
+				}
+				if kw == "moves" {
+					db.Moves[r] = true
+				} else {
+					db.AtomicInit[r] = true
+				}
+			}
 			cur = nil
 		case "globalframe":
 			// globalframe PROP: the property's check includes one frame obligation per package-level variable
